@@ -27,6 +27,17 @@ Proof.
   destruct (Z.gtb_spec (s + 1) (4294967295 - 1023)); lia.
 Qed.
 
+(* the receiver's sequence check accepts the sender's next number (increase, or the roll-over) *)
+Lemma next_accepted s : 0 <= s < 4294967296 -> seq_accept (Some s) (go_nextSequenceNumber s) = true.
+Proof.
+  intros H. unfold seq_accept, go_nextSequenceNumber. cbv zeta.
+  destruct (Z.eq_dec s 4294967295) as [->|Hne]; [vm_compute; reflexivity|].
+  rewrite (Z.mod_small (s + 1)) by lia.
+  destruct (Z.gtb_spec (s + 1) (4294967295 - 1023)).
+  - apply orb_true_iff. right. apply andb_true_iff. split; [apply Z.leb_le; lia | reflexivity].
+  - apply orb_true_iff. left. apply Z.ltb_lt. lia.
+Qed.
+
 (* ---------------------------------------------------------------------------------------------- *)
 (* EncodeChunks *)
 
@@ -280,6 +291,33 @@ Proof.
   split; assumption.
 Qed.
 
+(* every number is accepted after its predecessor *)
+Fixpoint accept_chain (last : option Z) (l : list Z) : Prop :=
+  match l with [] => True | x :: r => seq_accept last x = true /\ accept_chain (Some x) r end.
+
+Lemma numbered_accept its : forall s, 0 <= s <= 4294966272 ->
+  accept_chain (Some s) (map (fun x => snd (fst x)) (fst (numbered false s its))).
+Proof.
+  induction its as [|[ct d] rest IH]; intros s Hs; [exact I|].
+  cbn [numbered]. pose proof (next_range s ltac:(lia)) as Hn. pose proof (next_accepted s ltac:(lia)) as Ha.
+  specialize (IH (go_nextSequenceNumber s) ltac:(lia)).
+  destruct (numbered false (go_nextSequenceNumber s) rest) as [l sn]. cbn [fst snd map accept_chain] in *.
+  split; assumption.
+Qed.
+
+Lemma numbered_last first s its : its <> [] ->
+  last (map (fun x => snd (fst x)) (fst (numbered first s its))) 0 = snd (numbered first s its).
+Proof.
+  revert first s. induction its as [|[ct d] rest IH]; intros first s Hne; [congruence|].
+  cbn [numbered]. specialize (IH false (if first then s else go_nextSequenceNumber s)).
+  destruct rest as [|it rest'].
+  - cbn. reflexivity.
+  - destruct (numbered false (if first then s else go_nextSequenceNumber s) (it :: rest')) as [l sn] eqn:E.
+    cbn [fst snd map] in *. specialize (IH ltac:(discriminate)).
+    destruct l as [|y l']; [cbn [numbered] in E; destruct it; destruct (numbered false _ rest'); discriminate E|].
+    cbn [map last] in *. exact IH.
+Qed.
+
 Lemma numbered_items first s its :
   map (fun x => (fst (fst x), snd x)) (fst (numbered first s its)) = its.
 Proof.
@@ -331,41 +369,44 @@ Definition cfg : rcfg := mkRcfg m pnone R chan maxchunks maxmsg.
 Definition mk (x : byte * Z * bytes) : chunk := let '(ct, sq, d) := x in mkChunk ct chan sq req d.
 
 (* intermediate chunks are stored, the final one triggers the merge *)
-Lemma receive_all_ok (cs : list (byte * Z * bytes)) : forall (ws : list bytes) (t : chunk_table) f fw,
+Lemma receive_run_ok (cs : list (byte * Z * bytes)) : forall (ws : list bytes) (t : chunk_table) (last : option Z) f fw,
   Forall2 wire_ok cs ws -> wire_ok f fw ->
   Forall (fun x => fst (fst x) = "C"%byte) cs -> fst (fst f) = "F"%byte ->
+  accept_chain last (map (fun x => snd (fst x)) (cs ++ [f])) ->
   (maxchunks = 0 \/ zlen (tbl_get t req) + zlen cs <= maxchunks) -> 0 <= maxchunks < 4294967296 ->
   let all := tbl_get t req ++ map mk cs ++ [mk f] in
   (maxmsg = 0 \/ zlen (merge_chunks all) <= maxmsg) -> 0 <= maxmsg < 4294967296 ->
-  receive_all cfg t (ws ++ [fw]) = [Deliver req chan (merge_chunks all)].
+  exists t', receive_run cfg (t, last) (ws ++ [fw]) = ((t', Some (snd (fst f))), [Deliver req chan (merge_chunks all)]).
 Proof.
-  induction cs as [|x cs IH]; intros ws t f fw Hall Hf HC HF Hcnt Hmc all Hsz Hmm.
-  - inversion Hall; subst. cbn [app receive_all]. unfold receive_step.
+  induction cs as [|x cs IH]; intros ws t last f fw Hall Hf HC HF Hch Hcnt Hmc all Hsz Hmm.
+  - inversion Hall; subst. cbn [app receive_run]. unfold receive_step.
     destruct f as [[ct sq] d]. cbn [fst] in HF. subst ct.
-    destruct Hf as (Hr & _). cbn [cfg r_mode r_pnone r_algo r_chan]. rewrite Hr. cbn [c_req c_type c_chan].
+    destruct Hf as (Hr & _). cbn [cfg r_mode r_pnone r_algo r_chan]. rewrite Hr. cbn [c_req c_type c_chan c_seq].
+    cbn [app map fst snd accept_chain] in Hch. destruct Hch as [Hacc _]. rewrite Hacc. cbn [negb].
     change (Byte.eqb "F" "A") with false. change (Byte.eqb "F" "C") with false. cbv iota.
     unfold all in Hsz. cbn [map app] in Hsz. cbn [mk] in Hsz.
     change (r_maxmsg cfg) with maxmsg.
     rewrite limit_ok by (try assumption; apply zlen_nonneg).
-    reflexivity.
+    eexists. reflexivity.
   - inversion Hall as [|x' w cs' ws' Hx Hrest]; subst. inversion HC as [|? ? HxC HCrest]; subst.
-    cbn [app receive_all]. unfold receive_step at 1.
+    cbn [app receive_run]. unfold receive_step at 1.
     destruct x as [[ct sq] d]. cbn [fst] in HxC. subst ct.
-    destruct Hx as (Hr & _). cbn [cfg r_mode r_pnone r_algo r_chan]. rewrite Hr. cbn [c_req c_type c_chan].
+    destruct Hx as (Hr & _). cbn [cfg r_mode r_pnone r_algo r_chan]. rewrite Hr. cbn [c_req c_type c_chan c_seq].
+    cbn [app map fst snd accept_chain] in Hch. destruct Hch as [Hacc Hch]. rewrite Hacc. cbn [negb].
     change (Byte.eqb "C" "A") with false. change (Byte.eqb "C" "C") with true. cbv iota.
     change (r_maxchunks cfg) with maxchunks.
     pose proof (zlen_nonneg (tbl_get t req)) as Hg0. pose proof (zlen_nonneg cs) as Hc0.
     rewrite zlen_cons in Hcnt.
     rewrite zlen_app, zlen_single.
     rewrite limit_ok by (try assumption; lia).
-    cbn [app].
     fold cfg.
-    rewrite (IH ws' (tbl_set t req (tbl_get t req ++ [mkChunk "C" chan sq req d])) f fw Hrest Hf HCrest HF).
-    + rewrite tbl_get_set. unfold all. cbn [map mk]. rewrite <- !app_assoc. reflexivity.
+    destruct (IH ws' (tbl_set t req (tbl_get t req ++ [mkChunk "C" chan sq req d])) (Some sq) f fw Hrest Hf HCrest HF Hch) as [t' Ht'].
     + rewrite tbl_get_set, zlen_app, zlen_single. destruct Hcnt as [->|Hcnt]; [left; reflexivity | right; lia].
     + exact Hmc.
     + rewrite tbl_get_set. unfold all in Hsz. cbn [map mk] in Hsz. rewrite <- !app_assoc. exact Hsz.
     + exact Hmm.
+    + rewrite Ht'. exists t'. cbn [app]. f_equal. f_equal. f_equal.
+      rewrite tbl_get_set. unfold all. cbn [map mk]. rewrite <- !app_assoc. reflexivity.
 Qed.
 
 End Channel.
@@ -378,7 +419,7 @@ Proof. rewrite map_map. apply map_ext. intros [[ct sq] d]. reflexivity. Qed.
 Lemma mk_data chan req l : map c_data (map (mk chan req) l) = map snd l.
 Proof. rewrite map_map. apply map_ext. intros [[ct sq] d]. reflexivity. Qed.
 
-Theorem send_receive S R m pnone chan tok req maxBody s0 pmc pmm body maxchunks maxmsg t :
+Theorem send_receive S R m pnone chan tok req maxBody s0 pmc pmm body maxchunks maxmsg t rlast :
   link S R -> 0 < a_plain S -> 0 <= a_sig S ->
   0 <= chan < 4294967296 -> 0 <= req < 4294967296 ->
   0 < maxBody < 4294967296 -> 0 <= s0 < 4294967296 ->
@@ -386,13 +427,13 @@ Theorem send_receive S R m pnone chan tok req maxBody s0 pmc pmm body maxchunks 
   0 <= pmc < 4294967296 -> 0 <= pmm -> (pmc = 0 \/ zlen body / maxBody + 1 <= pmc) -> (pmm = 0 \/ zlen body <= pmm) ->
   (maxmsg = 0 \/ zlen body <= maxmsg) -> 0 <= maxmsg < 4294967296 ->
   (maxchunks = 0 \/ zlen body / maxBody <= maxchunks) -> 0 <= maxchunks < 4294967296 ->
-  tbl_get t req = [] ->
-  exists ws sn,
+  tbl_get t req = [] -> (rlast = None \/ rlast = Some s0) ->
+  exists ws sn t',
     send_message m S MSG chan tok req maxBody s0 pmc pmm body = Ok (ws, sn) /\
-    receive_all (cfg R m pnone chan maxchunks maxmsg) t ws = [Deliver req chan body] /\
+    receive_run (cfg R m pnone chan maxchunks maxmsg) (t, rlast) ws = ((t', Some sn), [Deliver req chan body]) /\
     Forall2 (wire_ok S R m pnone chan req) (fst (numbered true (go_nextSequenceNumber s0) (items maxBody body))) ws.
 Proof.
-  intros L Hpl Hsg Hch Hrq Hmb Hs0 Hb Hpc Hpm Hpcl Hpml Hbm Hmm Hcnt Hmc Ht.
+  intros L Hpl Hsg Hch Hrq Hmb Hs0 Hb Hpc Hpm Hpcl Hpml Hbm Hmm Hcnt Hmc Ht Hrl.
   unfold send_message. rewrite encode_chunks_ok by assumption.
   assert (Hnr : zlen body / maxBody + 1 < 4294967296).
   { pose proof (zlen_nonneg body). assert (zlen body / maxBody <= zlen body); [|lia].
@@ -402,7 +443,9 @@ Proof.
   pose proof (next_range s0 Hs0) as Hs1. set (s1 := go_nextSequenceNumber s0) in *.
   destruct (send_loop_ok S R L Hpl Hsg m pnone chan tok req Hch Hrq (items maxBody body) true s1 s1)
     as (ws & Hsend & Hall); [intros _; split; [reflexivity | lia] | discriminate |].
-  exists ws, (snd (numbered true s1 (items maxBody body))). split; [exact Hsend|]. split; [|exact Hall].
+  set (sn := snd (numbered true s1 (items maxBody body))) in *.
+  cut (exists t', receive_run (cfg R m pnone chan maxchunks maxmsg) (t, rlast) ws = ((t', Some sn), [Deliver req chan body])).
+  { intros [t' Hr]. exists ws, sn, t'. split; [exact Hsend|]. split; [exact Hr | exact Hall]. }
   destruct (items_shape maxBody body ltac:(lia)) as (cs & f & Hitems & HcsLen & Hcsn & Hf).
   pose proof (numbered_items true s1 (items maxBody body)) as Hproj.
   set (l := fst (numbered true s1 (items maxBody body))) in *.
@@ -428,7 +471,17 @@ Proof.
     rewrite merge_chunks_chain by (rewrite mk_seq; exact Hchain).
     rewrite mk_data. exact Hdata. }
   rewrite <- Hmerge.
-  apply (receive_all_ok S R m pnone chan req maxchunks maxmsg csN ws1 t fN fw Hall1 Hfw).
+  assert (Hne : items maxBody body <> []) by (rewrite Hitems; destruct cs; discriminate).
+  assert (Hlast : snd (fst fN) = sn).
+  { unfold sn. rewrite <- (numbered_last true s1 (items maxBody body) Hne). fold l. rewrite Hl, map_app. cbn [map].
+    rewrite last_last. reflexivity. }
+  rewrite <- Hlast.
+  assert (Hacc : accept_chain rlast (map (fun x => snd (fst x)) (csN ++ [fN]))).
+  { rewrite <- Hl. unfold l. destruct (items maxBody body) as [|[ct d] rest] eqn:Ei; [congruence|].
+    cbn [numbered]. pose proof (numbered_accept rest s1 ltac:(lia)) as Hc.
+    destruct (numbered false s1 rest) as [l' sn']. cbn [fst snd map accept_chain] in *. split; [|exact Hc].
+    destruct Hrl as [->| ->]; [reflexivity | apply next_accepted; exact Hs0]. }
+  apply (receive_run_ok S R m pnone chan req maxchunks maxmsg csN ws1 t rlast fN fw Hall1 Hfw); [| | exact Hacc | | | |].
   - rewrite Forall_forall. intros x Hx.
     assert (Hin : In (fst (fst x), snd x) (map (fun x => (fst (fst x), snd x)) csN)) by (apply (in_map (fun x => (fst (fst x), snd x))); exact Hx).
     rewrite HcsN in Hin. apply in_map_iff in Hin. destruct Hin as (d & Hd & _). injection Hd as Hd _. symmetry. exact Hd.
